@@ -37,7 +37,8 @@ def read_client_conf():
         paths = Platform().client_conf_paths()
         for p_str in paths:
             p = os.path.expandvars(p_str)
-            if os.path.exists(p):
+            # (a directory of that name is not a configuration file: go on to the next candidate)
+            if os.path.isfile(p):
                 return p
         return ''
 
